@@ -6,6 +6,7 @@ import sys
 
 if __name__ == "__main__":
     base, kind, flag, worker = sys.argv[1:5]
+    default_dir = len(sys.argv) > 5 and sys.argv[5] == "default-dir"
     os.environ.update({"VERIF_LOG": os.path.join(base, "events.ndjson"), "VERIF_PROC": "p1", "VERIF_SIDE": os.path.join(base, "side")})
     os.makedirs(os.path.join(base, "side"), exist_ok=True)
     from harness import job_common as jc
@@ -24,17 +25,24 @@ if __name__ == "__main__":
     out = {}
     try:
         kw = {"n_procs": 2} if worker == "cf" else {}
+        margs = {} if default_dir else {"messenger_args": {"message_dir": md}}
+        os.makedirs(os.path.join(base, "launch"), exist_ok=True)
+        os.chdir(os.path.join(base, "launch"))
         task(cache_root=os.path.join(base, "cache"), worker=worker, audit_flags=getattr(AuditFlag, flag),
-             messengers=FileMessenger(), messenger_args={"message_dir": md}, **kw)
+             messengers=FileMessenger(), **margs, **kw)
         out["status"] = "ok"
     except BaseException as e:  # noqa
         out["status"] = "raised"
         out["error"] = f"{type(e).__name__}: {str(e)[:200]}"
     msgs = []
-    for f in sorted(glob.glob(md + "/*.jsonld")):
+    files = sorted(glob.glob(md + "/*.jsonld"))
+    if default_dir:
+        files = sorted(glob.glob(os.path.join(base, "**", "messages", "*.jsonld"), recursive=True))
+    for f in files:
         m = json.load(open(f))
         for d in (m if isinstance(m, list) else [m]):
             if isinstance(d, dict) and "@id" in d and ("startedAtTime" in d or "endedAtTime" in d) and d.get("@type") != "monitor" and "wasEndedBy" not in d:
-                msgs.append({"id": d["@id"], "kind": "start" if "startedAtTime" in d else "end", "errored": d.get("errored")})
+                msgs.append({"id": d["@id"], "kind": "start" if "startedAtTime" in d else "end", "errored": d.get("errored"),
+                             "dir": os.path.relpath(os.path.dirname(f), base)})
     out["msgs"] = msgs
     json.dump(out, open(os.path.join(base, "out.json"), "w"))
